@@ -25,7 +25,9 @@ CLAIM = dict(
     "sums to zero so total divergence vanishes; divergence is the negative adjoint of the area-weighted face difference; mass "
     "matrices are vol*I; face_to_cell is the linear interpolation pt*u_hi+(1-pt)*u_lo with the face value at the face from "
     "both sides (normal continuity), the mean at the centre, zero on the boundary; arithmetic/harmonic face averages; "
-    "tangential reconstruction reproduces constants exactly on the code's interior faces. Tie: exact equality model = "
+    "for vector / tensor cell quantities the component / diagonal entry of the face's normal axis is the one averaged "
+    "(c2f_component_selection, other entries are never read); tangential reconstruction reproduces constants exactly on the "
+    "code's interior faces. Tie: exact equality model = "
     "implementation on all 186 shapes x dyadic voxel sizes x dyadic data for every operator.",
     note="scipy.sparse assembly (duplicates summed) and numpy slicing are modelled pointwise and tied by the exact dense "
     "correspondence; harmonic mean compared to 4 ulp (scipy hmean divides).",
@@ -296,10 +298,17 @@ def run(ctx):
                 if kind.startswith("scalar"):
                     comps = [comps[0]] * dim
                 q = build_q(g, kind, comps, rng)
-                Q = " ".join(lst(c) for c in comps)
-                add(f"c2f arithmetic {S} {Q}", lambda: rats(d.cell_to_face_average(g, q, "arithmetic")))
+                # the model receives the FULL cell array (all vector components / tensor entries) and selects itself
+                mk = "scalar" if kind.startswith("scalar") else kind
+                if mk == "scalar":
+                    flat = q.ravel("F")
+                elif mk == "vector":
+                    flat = np.stack([q[..., i].ravel("F") for i in range(dim)], axis=1).ravel()
+                else:
+                    flat = np.stack([np.stack([q[..., i, j].ravel("F") for j in range(dim)], axis=1) for i in range(dim)], axis=1).ravel()
+                add(f"c2fq arithmetic {mk} {S} {lst(flat)}", lambda: rats(d.cell_to_face_average(g, q, "arithmetic")))
                 r = call(d.cell_to_face_average, g, q, "harmonic")
-                hlines.append(f"c2f harmonic {S} {Q}")
+                hlines.append(f"c2fq harmonic {mk} {S} {lst(flat)}")
                 himpl_vals.append(r)
             # default evaluation point (cell centre)
             U = dy(rng, nf)
